@@ -330,6 +330,7 @@ func (w *World) monQos2Once(h []ev) {
 	tainted := map[string]bool{}
 	taintMode := map[string]string{}
 	excused := map[string]bool{} // a second hand-over that happened while the first acknowledgement was still outstanding
+	refused := map[string]bool{} // Backend.Publish returned an error for this message
 	for _, e := range h {
 		switch e.kind {
 		case "ackmode":
@@ -362,6 +363,10 @@ func (w *World) monQos2Once(h []ev) {
 					}
 				}
 			}
+		case "bpublish-refused":
+			if p, ok := e.pkt.(*packet.Publish); ok && p.Message.QOS == 2 {
+				refused[cid(e.conn)+"|"+string(p.Message.Payload)] = true
+			}
 		case "bpublish":
 			if p, ok := e.pkt.(*packet.Publish); ok && p.Message.QOS == 2 && len(p.Message.Payload) > 0 && !strings.HasPrefix(string(p.Message.Payload), "will-") {
 				k := cid(e.conn) + "|" + string(p.Message.Payload)
@@ -374,6 +379,11 @@ func (w *World) monQos2Once(h []ev) {
 					kind := "qos2-forwarded-twice"
 					if tainted[k] {
 						kind += "/late-ack"
+						excused[k] = true
+					} else if refused[k] {
+						// the second recorded known finding: Backend.Publish failed with the publisher's own queue full after
+						// a partial fan-out, so the message stayed stored and the resumed PUBREL hands it on again
+						kind += "/publisher-queue-full"
 						excused[k] = true
 					}
 					w.hit(kind, fmt.Sprintf("QoS 2 message %q of client %s handed to the backend %d times", p.Message.Payload, cid(e.conn), count[k]))
